@@ -526,6 +526,18 @@ class FuncFlow:
                         any(isinstance(k.value, FuncRef) for k in c.keywords):
                     self.registrations.append((c, stmt, before))
         for c in ast.walk(raw):
+            if isinstance(c, ast.Call) and isinstance(c.func, ast.Attribute) and c.func.attr == 'append' and \
+                    isinstance(c.func.value, ast.Name) and len(c.args) == 1 and c.func.value.id in st.env:
+                # a local list literal that is appended to: keep its (possible) elements visible
+                cur = st.env[c.func.value.id]
+                lit = cur.value if isinstance(cur, Ref) else None
+                if isinstance(lit, ast.List) and len(lit.elts) < 8:
+                    arg = self.resolve(c.args[0], before)
+                    if not any(x is arg for x in lit.elts):
+                        new = ast.List(elts=list(lit.elts) + [arg], ctx=ast.Load())
+                        new.orig = getattr(lit, 'orig', lit)
+                        st.env[c.func.value.id] = Ref(c.func.value.id, new, stmt)
+                continue
             if isinstance(c, ast.Call) and isinstance(c.func, ast.Attribute):
                 m = c.func.attr
                 mut = m in MUTATOR_METHODS
@@ -1045,6 +1057,10 @@ def unround(e):
         changed = False
         if isinstance(e, Ref) and not isinstance(e.value, (Acc, Phi)):
             inner = e.value
+            if isinstance(inner, Ref):
+                e = inner               # a plain alias (x = y)
+                changed = True
+                continue
             if isinstance(inner, ast.Call) and isinstance(inner.func, ast.Name) and inner.func.id == 'round' \
                     and inner.args:
                 e = inner
